@@ -4,7 +4,7 @@ import ast
 
 from .. import terms as T
 from ..graphmodel import GraphModel
-from ..index import walk_local
+from ..index import walk_local, dotted
 from .common import src, stmt_of, trace
 
 REMOVE = T.mk(('var', 'remove'))
@@ -282,3 +282,102 @@ def construction(ctx, rep, r1, r2, r3, r4, r5):
         rep.check(ok and flat, r5, "%s flattens and adds to the member set" % upd.qualname, upd.qualname,
                   "member-set updates: %s, flatten used: %s" % ([(e.data['how'], [T.show(a, 2)[:40] for a in e.data['args']]) for e in m], flat),
                   "update() does not register every job of the sequences it is given")
+
+
+# ======================================================= who may write the requirement relation
+MUTATORS = {'add', 'discard', 'remove', 'update', 'clear', 'pop', 'difference_update', 'intersection_update',
+            'symmetric_difference_update', '__ior__', '__iand__', '__isub__', '__ixor__'}
+
+# role -> why it may write `required`; frozen after reading the package (one line of reason each)
+RELATION_WRITERS = {
+    ('jobbase', '__init__'): "creates the (empty) set",
+    ('jobbase', 'requires'): "the construction API itself (add / remove=True)",
+    ('sched', 'sanitize'): "documented: drops requirements that are not members (C16)",
+    ('sched', 'bypass_and_remove'): "documented graph surgery (C18)",
+}
+
+
+def relation_write_sites(prog, attr='required'):
+    """every construct of the package that can change a `.required` set:
+    (function, node, description)"""
+    sites = []
+    for f in prog.funcs.values():
+        aliases = set()
+        for n in walk_local(f.node):
+            if isinstance(n, ast.Assign) and len(n.targets) == 1 and isinstance(n.targets[0], ast.Name) \
+                    and _is_rel(n.value, attr):
+                aliases.add(n.targets[0].id)
+
+        def is_rel(e):
+            return _is_rel(e, attr) or (isinstance(e, ast.Name) and e.id in aliases)
+        for n in walk_local(f.node):
+            if isinstance(n, ast.Call) and isinstance(n.func, ast.Attribute) and n.func.attr in MUTATORS \
+                    and is_rel(n.func.value):
+                sites.append((f, n, "`%s`" % src(n)[:80]))
+            elif isinstance(n, ast.AugAssign) and is_rel(n.target):
+                sites.append((f, n, "`%s`" % src(n)[:80]))
+            elif isinstance(n, ast.Assign) and any(_is_rel(t, attr) for t in n.targets):
+                sites.append((f, n, "`%s`" % src(n)[:80]))
+            elif isinstance(n, ast.Delete) and any(_is_rel(t, attr) for t in n.targets):
+                sites.append((f, n, "`%s`" % src(n)[:80]))
+            elif isinstance(n, ast.Call) and dotted(n.func) in ('setattr', 'delattr') and len(n.args) >= 2 \
+                    and isinstance(n.args[1], ast.Constant) and n.args[1].value == attr:
+                sites.append((f, n, "`%s`" % src(n)[:80]))
+    return sites
+
+
+def _is_rel(e, attr):
+    if isinstance(e, ast.Attribute) and e.attr == attr:
+        return True
+    if isinstance(e, ast.Call) and dotted(e.func) == 'getattr' and len(e.args) >= 2 \
+            and isinstance(e.args[1], ast.Constant) and e.args[1].value == attr:
+        return True
+    return False
+
+
+def relation_writers(ctx, rep, rule):
+    """the requirement edges are exactly those built through the construction API: a `.required` set is
+    written only by the functions of RELATION_WRITERS (resolved by role), or by a private helper that only
+    they call"""
+    from ..effects import callees_by_name
+    r = ctx.roles
+    p = ctx.prog
+    allowed = {}
+    for (role, name), why in RELATION_WRITERS.items():
+        cls = r.jobbase if role == 'jobbase' else r.sched
+        f = p.supplier(cls, name)
+        if f is None:
+            rep.error(rule, "writer %s.%s of the table not found" % (cls.name, name))
+            return
+        allowed[f.qualname] = why
+    # callers of each function (by name resolution)
+    callers = {}
+    for g in p.funcs.values():
+        for n in walk_local(g.node):
+            if isinstance(n, ast.Call):
+                for c in callees_by_name(p, g, n):
+                    callers.setdefault(c.qualname, set()).add(g.qualname)
+
+    def ok_func(f, seen=()):
+        if f.qualname in allowed:
+            return True
+        # closures of an allowed function
+        g = f.parent
+        while g is not None:
+            if g.qualname in allowed:
+                return True
+            g = g.parent
+        if f.name.startswith('_') and not f.name.startswith('__') and f.qualname not in seen:
+            cs = callers.get(f.qualname, set())
+            return bool(cs) and all(ok_func(p.funcs[c], seen + (f.qualname,)) for c in cs if c in p.funcs)
+        return False
+    sites = relation_write_sites(p)
+    rep.need(rule, len(sites), 4, "constructs writing a `required` set")
+    for f, n, what in sites:
+        rep.check(ok_func(f), rule, "%s:%d write of the requirement relation by a documented writer"
+                  % (f.module.relpath, n.lineno), f.qualname,
+                  "%s in %s, which is not one of %s (nor a private helper of theirs)"
+                  % (what, f.qualname, sorted(allowed)),
+                  "requirement edges change behind the back of requires(): the edges are no longer exactly the "
+                  "ones the construction API built (a later requires(x, remove=True) raises, sanitize() has "
+                  "nothing to report, a job added back has lost its edges)")
